@@ -15,19 +15,33 @@ From Verif Require Import Base Cal Tables Period Np Group Param Engine EnginePro
 Import ListNotations.
 Open Scope nat_scope.
 
-Lemma Inv1_calc sy pp f s0 s w q : no_eternal sy -> stack s0 <> [] ->
-  Inv1 s0 s -> Inv1 s0 (fst (calc f sy pp s w q)).
+Lemma Inv1_calc sy pp f s0 s w q : leafy sy -> stack s0 <> [] ->
+  Inv1 sy s0 s -> Inv1 sy s0 (fst (calc f sy pp s w q)).
 Proof.
-  intros Hne Hs0 (I1 & I2 & I3).
+  intros Hlf Hs0 (I1 & I2 & I3).
   assert (Hs : stack s <> []) by now rewrite I1.
-  destruct (calc_T sy pp Hne f s w q I2 Hs) as [J1 J2].
+  destruct (calc_T sy pp Hlf f s w q I2 Hs) as [J1 J2].
   split; [now rewrite calc_stack'|]. split; [exact J1|]. eapply Tr_trans; eauto.
+Qed.
+
+(** what a fresh simulation computes for an eternal leaf that has no entry *)
+Lemma fresh_eternal_leaf sy pp N v x : leafy sy -> nth_error (vars sy) v = Some x ->
+  unit_eqb (v_unit x) Eternity = true -> v_neutral x = false ->
+  snd (calc (S N) sy pp {| cache := []; stack := []; invalid := [] |} v eternity_period)
+  = Ok (default_array pp x).
+Proof.
+  intros Hlf Ex Eu Hn. destruct (Hlf v x Ex Eu) as [Hnf HL].
+  cbn [calc]. unfold calc_body. rewrite Ex. unfold check_consistency. rewrite Eu.
+  unfold get_array. rewrite Hn. cbn [push cache stack tl]. unfold lookup at 1. cbn [find option_map].
+  unfold prev_periods. cbn [filter map existsb length].
+  destruct (Nat.leb_spec (max_loops sy) 0) as [HL0|_]; [lia|].
+  unfold formula_at. rewrite Hnf. reflexivity.
 Qed.
 
 Section Justify.
   Variable sy : sys.
   Variable pp : popu.
-  Hypothesis Hne : no_eternal sy.
+  Hypothesis Hlf : leafy sy.
   Variable c0 : list (key * val).
   Variable N : nat.
 
@@ -63,18 +77,19 @@ Section Justify.
   Qed.
 
   Lemma body_J f s v p : S f <= N ->
-    (forall s w q, Qs s -> stack s <> [] -> J s -> J (fst (calc f sy pp s w q))) ->
-    Qs s -> J s -> J (fst (calc_body (calc f sy pp) sy pp (push (v, p) s) v p)).
+    (forall s w q, Qs sy s -> stack s <> [] -> J s -> J (fst (calc f sy pp s w q))) ->
+    Qs sy s -> J s -> J (fst (calc_body (calc f sy pp) sy pp (push (v, p) s) v p)).
   Proof.
-    intros HfN IH HQ HJ.
+    intros HfN IH (HQ1 & HQ2 & HQ3) HJ.
     set (s0 := push (v, p) s).
     assert (Hs0 : stack s0 <> []) by discriminate.
-    assert (Hrec1 : forall s1 w q, Inv1 s0 s1 -> Inv1 s0 (fst (calc f sy pp s1 w q))).
+    assert (Hrec1 : forall s1 w q, Inv1 sy s0 s1 -> Inv1 sy s0 (fst (calc f sy pp s1 w q))).
     { intros. now apply Inv1_calc. }
-    pose proof (body_T sy pp Hne (calc f sy pp) s0 v p (stack s) eq_refl HQ Hrec1) as HT. cbn zeta in HT.
+    pose proof (body_T sy pp Hlf (calc f sy pp) s0 v p (stack s) eq_refl HQ1 HQ2 HQ3 Hrec1) as HT.
+    cbn zeta in HT.
     pose proof (body_calc_frame sy pp f s0 v p Hs0) as [_ Hincl].
     destruct (calc_body (calc f sy pp) sy pp s0 v p) as [s' r] eqn:Hb0. cbn [fst] in *.
-    destruct HT as (HT1 & HT2 & HT3).
+    destruct HT as (HT1 & HT2 & HT2b & HT3).
     assert (HJ0 : J s0) by exact HJ.
     assert (Hsame : cache s' = cache s0 -> J s').
     { intro E. apply (J_step s0 s'); auto. intros k a H1 H2. rewrite E in H1. congruence. }
@@ -85,23 +100,38 @@ Section Justify.
     { destruct (existsb _ _); apply Hsame; injection Hb as <- _; reflexivity. }
     destruct (existsb (period_eqb p) _) eqn:Ecy; [apply Hsame; injection Hb as <- _; reflexivity|].
     destruct (Nat.leb _ _); [apply Hsame; injection Hb as <- _; reflexivity|].
-    unfold get_array in Eg. destruct (v_neutral x); [discriminate|].
-    rewrite (norm_id sy v x p Hne Ex) in Eg. change (cache s0) with (cache s) in Eg.
-    assert (HI0 : Inv1 s0 s0).
-    { split; [reflexivity|]. split; [|apply Tr_refl].
-      intros k [<-|Hk]; [exact Eg|now apply HQ]. }
-    assert (Hput : forall s1 b, Inv1 s0 s1 -> J s1 -> s' = put_in_cache x v p b s1 -> r = Ok b -> J s').
-    { intros s1 b (I1 & I2 & I3) HJ1 -> ->.
+    unfold get_array in Eg. destruct (v_neutral x) eqn:Enx; [discriminate|].
+    change (cache s0) with (cache s) in Eg.
+    destruct (unit_eqb (v_unit x) Eternity) eqn:Eu.
+    { (* an eternal leaf stores the default; a fresh simulation computes the default *)
+      destruct (Hlf v x Ex Eu) as [Hnf HL].
+      assert (Ef : formula_at x p = Ok None) by (unfold formula_at; now rewrite Hnf).
+      rewrite Ef in Hb. injection Hb as <- <-.
+      apply (J_step s0); auto.
+      intros k a Hk Hn. rewrite lookup_put_in_cache in Hk.
+      destruct (v_nostore x); [congruence|].
+      destruct (key_eqb k (v, norm x p)) eqn:E; [|congruence].
+      apply key_eqb_iff in E. subst k. injection Hk as <-.
+      right. right. exists []. split; [intros k' a' Hk'; discriminate|].
+      unfold norm. rewrite Eu. cbn [fst snd].
+      destruct N as [|N']; [lia|]. now apply fresh_eternal_leaf. }
+    rewrite (norm_dated x p Eu) in Eg.
+    assert (HI0 : Inv1 sy s0 s0).
+    { split; [reflexivity|]. split; [|apply Tr_refl]. split; [|split; [|exact HQ3]].
+      - intros k [<-|Hk]; [exact Eg|now apply HQ1].
+      - intros k y [<-|Hk] Hy; [cbn [fst] in Hy; congruence|eauto]. }
+    assert (Hput : forall s1 b, Inv1 sy s0 s1 -> J s1 -> s' = put_in_cache x v p b s1 -> r = Ok b -> J s').
+    { intros s1 b (I1 & (I2 & I2b & I2c) & I3) HJ1 -> ->.
       destruct (v_nostore x) eqn:Ens. { unfold put_in_cache; rewrite Ens. exact HJ1. }
       assert (Hkf : lookup (v, p) (cache s1) = None) by (apply I2; rewrite I1; now left).
       apply (J_step s1).
       - exact HJ1.
       - split.
-        + intros k c Hk. rewrite lookup_put_in_cache, Ens, (norm_id sy v x p Hne Ex).
+        + intros k c Hk. rewrite lookup_put_in_cache, Ens, (norm_dated x p Eu).
           destruct (key_eqb k (v, p)) eqn:E; auto. apply key_eqb_iff in E. subst k. congruence.
         + intros k Hk. rewrite invalid_put_in_cache in Hk. auto.
       - rewrite invalid_put_in_cache. apply incl_refl.
-      - intros k a Hk Hn. rewrite lookup_put_in_cache, Ens, (norm_id sy v x p Hne Ex) in Hk.
+      - intros k a Hk Hn. rewrite lookup_put_in_cache, Ens, (norm_dated x p Eu) in Hk.
         destruct (key_eqb k (v, p)) eqn:E; [|congruence]. apply key_eqb_iff in E. subst k.
         injection Hk as <-. right.
         destruct (existsb (key_eqb (v, p)) (invalid s1)) eqn:Em.
@@ -116,18 +146,18 @@ Section Justify.
           * cbn [fst snd].
             assert (Hgood : ~ In (v, p) (invalid (put_in_cache x v p b s1))).
             { rewrite invalid_put_in_cache. now apply existsb_key_notin. }
-            pose proof (justify_frame sy pp f s v p _ b Hne Hb0 Hgood) as Hj.
+            pose proof (justify_frame_gen sy pp f s v p _ b HQ3 Hb0 Hgood) as Hj.
             destruct (calc (S f) sy pp {| cache := unmarked (invalid s) (cache s); stack := []; invalid := [] |} v p)
               as [t' r'] eqn:Ec.
             cbn [snd] in Hj. subst r'.
             replace N with (S f + (N - S f)) by lia.
             now rewrite (calc_fuel_ok sy pp (S f) (N - S f) _ _ _ _ _ Ec). }
-    assert (HrecJ : forall s1 w q, Inv1 s0 s1 /\ J s1 ->
-              Inv1 s0 (fst (calc f sy pp s1 w q)) /\ J (fst (calc f sy pp s1 w q))).
+    assert (HrecJ : forall s1 w q, Inv1 sy s0 s1 /\ J s1 ->
+              Inv1 sy s0 (fst (calc f sy pp s1 w q)) /\ J (fst (calc f sy pp s1 w q))).
     { intros s1 w q [HI1 HJ1]. split; [now apply Hrec1|].
       destruct HI1 as (I1 & I2 & I3). apply IH; auto. now rewrite I1. }
     destruct (formula_at x p) as [[e|]|]; [| |apply Hsame; injection Hb as <- _; reflexivity].
-    - pose proof (eval_pres sy pp (calc f sy pp) (fun s1 => Inv1 s0 s1 /\ J s1) HrecJ e (v_ent x) p s0
+    - pose proof (eval_pres sy pp (calc f sy pp) (fun s1 => Inv1 sy s0 s1 /\ J s1) HrecJ e (v_ent x) p s0
                     (conj HI0 HJ0)) as He.
       destruct (eval (calc f sy pp) sy pp (v_ent x) s0 p e) as [s1 r1]. cbn [fst] in He.
       destruct He as [HeI HeJ]. destruct r1 as [b|er].
@@ -136,7 +166,7 @@ Section Justify.
     - apply (Hput s0 (default_array pp x) HI0 HJ0); congruence.
   Qed.
 
-  Lemma calc_J : forall f, f <= N -> forall s v p, Qs s -> stack s <> [] -> J s ->
+  Lemma calc_J : forall f, f <= N -> forall s v p, Qs sy s -> stack s <> [] -> J s ->
     J (fst (calc f sy pp s v p)).
   Proof.
     induction f as [|f IH]; intros HfN s v p HQ Hs HJ; cbn [calc]; [exact HJ|].
@@ -170,17 +200,18 @@ Proof.
 Qed.
 
 (** what survives the purge was there before and is not marked *)
-Lemma purge_fold_sound sy k a : no_eternal sy -> forall inv c,
+Lemma purge_fold_sound sy k a : forall inv c, dated_keys sy inv ->
   lookup k (fold_left (fun c m => delete_one sy m c) inv c) = Some a ->
   lookup k c = Some a /\ (In k inv -> nth_error (vars sy) (fst k) = None).
 Proof.
-  intros Hne. induction inv as [|m inv IH]; intros c H; cbn [fold_left] in H.
+  induction inv as [|m inv IH]; intros c Hd H; cbn [fold_left] in H.
   - split; [exact H|intros []].
-  - destruct (IH _ H) as [H1 H2]. rewrite lookup_delete_one in H1.
+  - assert (Hd' : dated_keys sy inv) by (intros k' y Hk'; apply Hd; now right).
+    destruct (IH _ Hd' H) as [H1 H2]. rewrite lookup_delete_one in H1.
     destruct (nth_error (vars sy) (fst m)) as [x|] eqn:Ex.
     + destruct (Nat.eqb (fst k) (fst m) && contains (norm x (snd m)) (snd k)) eqn:E; [discriminate|].
       split; [exact H1|]. intros [->|Hin]; [|auto].
-      rewrite Nat.eqb_refl, (norm_id sy _ x _ Hne Ex), contains_refl in E. discriminate.
+      rewrite Nat.eqb_refl, (norm_dated x _ (Hd _ x (or_introl eq_refl) Ex)), contains_refl in E. discriminate.
     + split; [exact H1|]. intros [->|Hin]; auto.
 Qed.
 
@@ -190,19 +221,20 @@ Definition marks_exact (s : st) : Prop :=
   forall m k a, In m (invalid s) -> lookup k (cache s) = Some a ->
     fst m = fst k -> contains (snd m) (snd k) = true -> snd m = snd k.
 
-Lemma purge_fold_complete sy k a : no_eternal sy -> forall inv c,
+Lemma purge_fold_complete sy k a : forall inv c, dated_keys sy inv ->
   (forall m, In m inv -> fst m = fst k -> contains (snd m) (snd k) = true -> snd m = snd k) ->
   ~ In k inv -> lookup k c = Some a ->
   lookup k (fold_left (fun c m => delete_one sy m c) inv c) = Some a.
 Proof.
-  intros Hne. induction inv as [|m inv IH]; intros c Hex Hnin H; cbn [fold_left]; [exact H|].
+  induction inv as [|m inv IH]; intros c Hd Hex Hnin H; cbn [fold_left]; [exact H|].
   apply IH.
+  - intros k' y Hk'. apply Hd. now right.
   - intros m' Hm'. apply Hex. now right.
   - intro Hin. apply Hnin. now right.
   - rewrite lookup_delete_one. destruct (nth_error (vars sy) (fst m)) as [x|] eqn:Ex; [|exact H].
     destruct (Nat.eqb (fst k) (fst m) && contains (norm x (snd m)) (snd k)) eqn:E; [|exact H].
     exfalso. apply andb_true_iff in E as [E1 E2]. apply Nat.eqb_eq in E1.
-    rewrite (norm_id sy _ x _ Hne Ex) in E2.
+    rewrite (norm_dated x _ (Hd _ x (or_introl eq_refl) Ex)) in E2.
     apply Hnin. left. destruct m as [w q], k as [w' q']. cbn [fst snd] in *.
     f_equal; [congruence|]. apply (Hex (w, q)); cbn [fst snd]; [now left|congruence|exact E2].
 Qed.
@@ -221,8 +253,56 @@ Qed.
 
 (** * Sentence 2 *)
 
+Lemma before_purge_stack sy pp f s0 v p : stack (before_purge f sy pp s0 v p) = stack s0.
+Proof.
+  unfold before_purge, pop; cbn [stack].
+  pose proof (body_calc_frame sy pp f (push (v, p) s0) v p ltac:(discriminate)) as [X _].
+  now rewrite X.
+Qed.
+
+Lemma before_purge_dated sy pp f s0 v p : leafy sy -> stack s0 = [] -> invalid s0 = [] ->
+  dated_keys sy (invalid (before_purge f sy pp s0 v p)).
+Proof.
+  intros Hlf Hst Hinv. unfold before_purge, pop; cbn [invalid].
+  assert (Hrec1 : forall s1 w q, Inv1 sy (push (v, p) s0) s1 ->
+            Inv1 sy (push (v, p) s0) (fst (calc f sy pp s1 w q))).
+  { intros. apply Inv1_calc; auto. discriminate. }
+  refine (proj1 (proj2 (proj2 (body_T sy pp Hlf (calc f sy pp) (push (v, p) s0) v p (stack s0) eq_refl _ _ _ Hrec1)))).
+  - intros k Hk. rewrite Hst in Hk. destruct Hk.
+  - intros k y Hk. rewrite Hst in Hk. destruct Hk.
+  - intros k y Hk. cbn [push invalid] in Hk. rewrite Hinv in Hk. destruct Hk.
+Qed.
+
 (** Unconditional form: the witness consists of entries that are stored and unmarked just
-    before the purge. *)
+    before the purge.  Eternal variables, if any, are leaves. *)
+Theorem retained_justified_pre_gen : forall sy pp f s0 v p,
+  leafy sy -> stack s0 = [] -> invalid s0 = [] ->
+  let se := before_purge f sy pp s0 v p in
+  let s1 := fst (calc (S f) sy pp s0 v p) in
+  forall k a, lookup k (cache s1) = Some a -> lookup k (cache s0) <> Some a ->
+  exists W : list (key * val),
+    (forall k' a', lookup k' W = Some a' ->
+       k' <> k /\ lookup k' (cache se) = Some a' /\ ~ In k' (invalid se)) /\
+    snd (calc (S f) sy pp {| cache := W; stack := []; invalid := [] |} (fst k) (snd k)) = Ok a.
+Proof.
+  intros sy pp f s0 v p Hlf Hst Hinv se s1 k a Hk Hold. subst s1.
+  rewrite calc_before_purge in Hk. fold se in Hk.
+  assert (HJ0 : J sy pp (cache s0) (S f) s0) by (intros k' a' H'; now left).
+  assert (HQ0 : Qs sy s0).
+  { split; [|split]; intros k'; rewrite ?Hst, ?Hinv; intros; contradiction. }
+  assert (HJe : J sy pp (cache s0) (S f) se).
+  { refine (body_J sy pp Hlf (cache s0) (S f) f s0 v p (le_n _) _ HQ0 HJ0).
+    intros s w q. apply calc_J; auto. }
+  assert (Hse : stack se = []) by (unfold se; now rewrite before_purge_stack).
+  pose proof (before_purge_dated sy pp f s0 v p Hlf Hst Hinv) as Hde. fold se in Hde.
+  unfold purge in Hk. rewrite Hse in Hk. cbn [cache] in Hk.
+  destruct (purge_fold_sound sy k a _ _ Hde Hk) as [Hk1 Hk2].
+  destruct (HJe k a Hk1) as [H|[[H1 H2]|(W & HS & Hc)]].
+  - contradiction.
+  - exfalso. now apply H2, Hk2.
+  - exists W. split; [exact HS|exact Hc].
+Qed.
+
 Theorem retained_justified_pre : forall sy pp f s0 v p,
   no_eternal sy -> stack s0 = [] -> invalid s0 = [] ->
   let se := before_purge f sy pp s0 v p in
@@ -232,42 +312,34 @@ Theorem retained_justified_pre : forall sy pp f s0 v p,
     (forall k' a', lookup k' W = Some a' ->
        k' <> k /\ lookup k' (cache se) = Some a' /\ ~ In k' (invalid se)) /\
     snd (calc (S f) sy pp {| cache := W; stack := []; invalid := [] |} (fst k) (snd k)) = Ok a.
-Proof.
-  intros sy pp f s0 v p Hne Hst Hinv se s1 k a Hk Hold. subst s1.
-  rewrite calc_before_purge in Hk. fold se in Hk.
-  assert (HJ0 : J sy pp (cache s0) (S f) s0) by (intros k' a' H'; now left).
-  assert (HQ0 : Qs s0) by (intros k' H'; rewrite Hst in H'; destruct H').
-  assert (HJe : J sy pp (cache s0) (S f) se).
-  { refine (body_J sy pp Hne (cache s0) (S f) f s0 v p (le_n _) _ HQ0 HJ0).
-    intros s w q. apply calc_J; auto. }
-  assert (Hse : stack se = []).
-  { unfold se, before_purge, pop; cbn [stack].
-    pose proof (body_calc_frame sy pp f (push (v, p) s0) v p ltac:(discriminate)) as [X _].
-    rewrite X. cbn [push stack tl]. exact Hst. }
-  unfold purge in Hk. rewrite Hse in Hk. cbn [cache] in Hk.
-  destruct (purge_fold_sound sy k a Hne _ _ Hk) as [Hk1 Hk2].
-  destruct (HJe k a Hk1) as [H|[[H1 H2]|(W & HS & Hc)]].
-  - contradiction.
-  - exfalso. now apply H2, Hk2.
-  - exists W. split; [exact HS|exact Hc].
-Qed.
+Proof. intros sy pp f s0 v p Hne. apply retained_justified_pre_gen. now apply no_eternal_leafy. Qed.
 
-Lemma purge_keeps_unmarked sy s k a : no_eternal sy -> stack s = [] -> marks_exact s ->
+Lemma purge_keeps_unmarked sy s k a : dated_keys sy (invalid s) -> stack s = [] -> marks_exact s ->
   lookup k (cache s) = Some a -> ~ In k (invalid s) -> lookup k (cache (purge sy s)) = Some a.
 Proof.
-  intros Hne Hst Hex Hk Hn. unfold purge. rewrite Hst. cbn [cache].
+  intros Hd Hst Hex Hk Hn. unfold purge. rewrite Hst. cbn [cache].
   apply purge_fold_complete; auto. intros m Hm. exact (Hex m k a Hm Hk).
-Qed.
-
-Lemma before_purge_stack sy pp f s0 v p : stack (before_purge f sy pp s0 v p) = stack s0.
-Proof.
-  unfold before_purge, pop; cbn [stack].
-  pose proof (body_calc_frame sy pp f (push (v, p) s0) v p ltac:(discriminate)) as [X _].
-  now rewrite X.
 Qed.
 
 (** With [marks_exact] on the state before the purge, the witness is a set of values
     that are still readable after the request. *)
+Theorem retained_justified_gen : forall sy pp f s0 v p,
+  leafy sy -> stack s0 = [] -> invalid s0 = [] ->
+  marks_exact (before_purge f sy pp s0 v p) ->
+  let s1 := fst (calc (S f) sy pp s0 v p) in
+  forall k a, lookup k (cache s1) = Some a -> lookup k (cache s0) <> Some a ->
+  exists W : list (key * val),
+    (forall k' a', lookup k' W = Some a' -> k' <> k /\ lookup k' (cache s1) = Some a') /\
+    snd (calc (S f) sy pp {| cache := W; stack := []; invalid := [] |} (fst k) (snd k)) = Ok a.
+Proof.
+  intros sy pp f s0 v p Hlf Hst Hinv Hex s1 k a Hk Hold.
+  destruct (retained_justified_pre_gen sy pp f s0 v p Hlf Hst Hinv k a Hk Hold) as (W & HS & Hc).
+  exists W. split; [|exact Hc].
+  intros k' a' Hk'. destruct (HS k' a' Hk') as (A & B & C). split; [exact A|].
+  subst s1. rewrite calc_before_purge.
+  apply purge_keeps_unmarked; auto; [now apply before_purge_dated|now rewrite before_purge_stack].
+Qed.
+
 Theorem retained_justified : forall sy pp f s0 v p,
   no_eternal sy -> stack s0 = [] -> invalid s0 = [] ->
   marks_exact (before_purge f sy pp s0 v p) ->
@@ -276,14 +348,7 @@ Theorem retained_justified : forall sy pp f s0 v p,
   exists W : list (key * val),
     (forall k' a', lookup k' W = Some a' -> k' <> k /\ lookup k' (cache s1) = Some a') /\
     snd (calc (S f) sy pp {| cache := W; stack := []; invalid := [] |} (fst k) (snd k)) = Ok a.
-Proof.
-  intros sy pp f s0 v p Hne Hst Hinv Hex s1 k a Hk Hold.
-  destruct (retained_justified_pre sy pp f s0 v p Hne Hst Hinv k a Hk Hold) as (W & HS & Hc).
-  exists W. split; [|exact Hc].
-  intros k' a' Hk'. destruct (HS k' a' Hk') as (A & B & C). split; [exact A|].
-  subst s1. rewrite calc_before_purge.
-  apply purge_keeps_unmarked; auto. now rewrite before_purge_stack.
-Qed.
+Proof. intros sy pp f s0 v p Hne. apply retained_justified_gen. now apply no_eternal_leafy. Qed.
 
 (** A decision procedure for [marks_exact] (used by the examples). *)
 Definition marks_exact_b (s : st) : bool :=
